@@ -52,6 +52,7 @@ type c04Builtin struct {
 	badDoc    bool
 	keys      []string
 	npos      int
+	types     []string // documented Type of the positional parameters
 }
 
 func (b c04Builtin) key() string { return b.name }
@@ -74,7 +75,7 @@ func c04Enumerate() []c04Builtin {
 		var fis []*slip.FuncInfo
 		p.EachFuncInfo(func(fi *slip.FuncInfo) { fis = append(fis, fi) })
 		for _, fi := range fis {
-			if fi.Pkg != p || seen[fi] || fi.Doc == nil || fi.Create == nil || fi.Kind == slip.LambdaSymbol || strings.HasPrefix(fi.Name, "c04f") {
+			if fi.Pkg != p || seen[fi] || fi.Doc == nil || fi.Create == nil || fi.Kind == slip.LambdaSymbol || strings.HasPrefix(strings.ToLower(fi.Name), "c04") {
 				continue // (functions defined by part (i) of this harness are not built-ins)
 			}
 			seen[fi] = true
@@ -141,6 +142,7 @@ func c04FillRanges(c *lib.Ctx, bs []c04Builtin) {
 				switch mode {
 				case "pos":
 					bs[i].npos++
+					bs[i].types = append(bs[i].types, c04DocType(bs[i].fi, d))
 				case "key":
 					bs[i].keys = append(bs[i].keys, strings.TrimPrefix(d, ":"))
 				case "rest":
@@ -171,17 +173,88 @@ func (b c04Builtin) argcs() []int {
 	return out
 }
 
-// benign argument vector: nil for positional parameters, `:key nil` for each documented key in
-// order, then nil (rest) or repeated `:key nil` pairs.
-func (b c04Builtin) args(argc int) []string {
+// c04ProbeName names a class, a function and a variable defined by the harness itself: the symbol
+// a built-in documented to take a symbol / class / function designator is probed with.
+const c04ProbeName = "c04-probe"
+
+func c04DefineProbes() {
+	sc := slip.NewScope()
+	for _, src := range []string{"(defclass " + c04ProbeName + " () ())", "(defun " + c04ProbeName + " (&rest r) nil)", "(defvar " + c04ProbeName + " nil)"} {
+		_ = lib.EvalString(sc, src)
+	}
+}
+
+func c04DocType(fi *slip.FuncInfo, name string) string {
+	for _, a := range fi.Doc.Args {
+		if strings.ToLower(a.Name) == name {
+			return strings.ToLower(a.Type)
+		}
+	}
+	return ""
+}
+
+// c04TypedTok: a benign value of the documented type of a positional parameter.
+func c04TypedTok(typ string) string {
+	has := func(ws ...string) bool {
+		for _, w := range ws {
+			if strings.Contains(typ, w) {
+				return true
+			}
+		}
+		return false
+	}
+	switch {
+	case has("stream"):
+		return "e:stream"
+	case has("hash"):
+		return "e:hash"
+	case has("symbol", "class", "function", "lambda", "designator", "flavor", "name"):
+		return "y:" + c04ProbeName
+	case has("string"):
+		return "s:a"
+	case has("char"):
+		return "c:a"
+	case has("fixnum", "integer", "number", "real", "float", "rational", "index", "byte"):
+		return "i:1"
+	case has("list", "sequence", "cons", "vector", "array", "tree"):
+		return "l:"
+	}
+	return "nil"
+}
+
+// argument vectors for one cell. Variant 0 is the benign vector: nil for positional parameters,
+// `:key nil` for each documented key in order, then nil (rest) or repeated `:key nil` pairs. A cell
+// outside the documented range whose benign call ends in a condition that is not the argument
+// count condition is retried with the further variants (values of the documented parameter types,
+// then uniform pools) until a call either returns or raises the argument count condition: a
+// built-in that checks its first argument's type before it ever looks at the count is still
+// classified.
+var c04Pools = []string{"nil", "typed", "y:" + c04ProbeName, "i:1", "s:a", "l:", "t"}
+
+func (b c04Builtin) args(argc int, variant int) []string {
+	pool := c04Pools[variant]
+	pos := func(i int) string {
+		switch pool {
+		case "typed":
+			if i < len(b.types) {
+				return c04TypedTok(b.types[i])
+			}
+			return "nil"
+		}
+		return pool
+	}
 	var v []string
 	for len(v) < b.npos && len(v) < argc {
-		v = append(v, "nil")
+		v = append(v, pos(len(v)))
 	}
 	ki := 0
 	for len(v) < argc {
 		if len(b.keys) == 0 {
-			v = append(v, "nil")
+			if pool == "typed" {
+				v = append(v, "nil")
+			} else {
+				v = append(v, pool)
+			}
 			continue
 		}
 		k := b.keys[ki%len(b.keys)]
@@ -194,24 +267,82 @@ func (b c04Builtin) args(argc int) []string {
 	return v
 }
 
-func (b c04Builtin) form(argc int) string {
-	return "(" + strings.Join(append([]string{b.pkg + "::" + b.name}, b.args(argc)...), " ") + ")"
+func c04TokLisp(t string) string {
+	switch {
+	case t == "nil" || t == "t" || strings.HasPrefix(t, ":"):
+		return t
+	case strings.HasPrefix(t, "y:"):
+		return "'" + t[2:]
+	case strings.HasPrefix(t, "i:"):
+		return t[2:]
+	case strings.HasPrefix(t, "s:"):
+		return `"` + t[2:] + `"`
+	case strings.HasPrefix(t, "c:"):
+		return `#\` + t[2:]
+	case t == "l:":
+		return "'(1 2)"
+	case strings.HasPrefix(t, "e:"):
+		return c04ExprToks[t]
+	}
+	return t
 }
+
+// tokens that stand for a form evaluated at the call (fresh object per call)
+var c04ExprToks = map[string]string{"e:stream": "(make-string-output-stream)", "e:hash": "(make-hash-table)"}
+
+// c04TokForm: the (unevaluated) argument form of a token.
+func c04TokForm(t string) slip.Object {
+	quote := func(o slip.Object) slip.Object { return slip.List{slip.Symbol("quote"), o} }
+	switch {
+	case t == "nil":
+		return nil
+	case t == "t":
+		return slip.True
+	case strings.HasPrefix(t, ":"):
+		return slip.Symbol(t)
+	case strings.HasPrefix(t, "y:"):
+		return quote(slip.Symbol(t[2:]))
+	case strings.HasPrefix(t, "i:"):
+		n, _ := strconv.Atoi(t[2:])
+		return slip.Fixnum(n)
+	case strings.HasPrefix(t, "s:"):
+		return slip.String(t[2:])
+	case strings.HasPrefix(t, "c:"):
+		return slip.Character([]rune(t[2:])[0])
+	case t == "l:":
+		return quote(slip.List{slip.Fixnum(1), slip.Fixnum(2)})
+	case strings.HasPrefix(t, "e:"):
+		if code := slip.ReadString(c04ExprToks[t], slip.NewScope()); len(code) == 1 {
+			return code[0]
+		}
+	}
+	return nil
+}
+
+func (b c04Builtin) formOf(toks []string) string {
+	w := []string{b.pkg + "::" + b.name}
+	for _, t := range toks {
+		w = append(w, c04TokLisp(t))
+	}
+	return "(" + strings.Join(w, " ") + ")"
+}
+
+func (b c04Builtin) form(argc int) string { return b.formOf(b.args(argc, 0)) }
 
 // --- worker -----------------------------------------------------------------------------------
 
-// c04Call evaluates one cell in-process.
+// c04Call evaluates one call in-process.
 func c04Call(fi *slip.FuncInfo, toks []string) lib.Outcome {
 	args := make(slip.List, len(toks))
 	for i, t := range toks {
-		if t != "nil" {
-			args[i] = slip.Symbol(t)
-		}
+		args[i] = c04TokForm(t)
 	}
 	return lib.Protect(func() slip.Object {
 		return slip.NewScope().Eval(fi.Create(args), 0)
 	})
 }
+
+func c04Classified(out string) bool { return out == "ok" || out == "arity-few" || out == "arity-many" }
 
 func c04CellOutcome(o lib.Outcome) string {
 	switch {
@@ -225,7 +356,8 @@ func c04CellOutcome(o lib.Outcome) string {
 	return "cond:" + o.Class
 }
 
-// c04Worker: cells file lines "<pkg> <name> <tok>*"; results "<idx> <outcome>" on fd 3.
+// c04Worker: cells file lines "<pkg> <name> <tok>* [| <tok>*]…" (argument vector variants, tried in
+// order until one is classified); results "<idx> <outcome> <variant>" on fd 3.
 func c04Worker() {
 	cellsPath := os.Getenv("C04_CELLS")
 	start, _ := strconv.Atoi(os.Getenv("C04_START"))
@@ -238,6 +370,7 @@ func c04Worker() {
 	for _, b := range c04Enumerate() {
 		byKey[b.pkg+" "+b.name] = b.fi
 	}
+	c04DefineProbes()
 	sc := bufio.NewScanner(f)
 	sc.Buffer(make([]byte, 1<<20), 1<<24)
 	idx := -1
@@ -246,14 +379,23 @@ func c04Worker() {
 		if idx < start {
 			continue
 		}
-		w := strings.Fields(sc.Text())
+		variants := strings.Split(sc.Text(), "|")
+		w := strings.Fields(variants[0])
 		fi := byKey[w[0]+" "+w[1]]
-		res := "missing"
+		res, won := "missing", 0
 		if fi != nil {
 			fmt.Fprintf(out, "%d begin\n", idx)
 			res = c04CellOutcome(c04Call(fi, w[2:]))
+			for vi := 1; vi < len(variants) && !c04Classified(res); vi++ {
+				if strings.TrimSpace(variants[vi]) == "-" {
+					continue
+				}
+				if r := c04CellOutcome(c04Call(fi, strings.Fields(variants[vi]))); c04Classified(r) {
+					res, won = r, vi
+				}
+			}
 		}
-		fmt.Fprintf(out, "%d %s\n", idx, res)
+		fmt.Fprintf(out, "%d %s %d\n", idx, res, won)
 	}
 	fmt.Fprintf(out, "done\n")
 	os.Exit(0)
@@ -312,6 +454,9 @@ func c04RunCells(c *lib.Ctx, lines []string) []string {
 					current = i
 				} else {
 					res[i] = w[1]
+					if len(w) > 2 {
+						res[i] += " " + w[2]
+					}
 					current = -1
 					start = i + 1
 				}
@@ -390,7 +535,20 @@ func c04Builtins(c *lib.Ctx) {
 			continue
 		}
 		for _, n := range b.argcs() {
-			lines = append(lines, b.pkg+" "+b.name+" "+strings.Join(b.args(n), " "))
+			line := b.pkg + " " + b.name + " " + strings.Join(b.args(n, 0), " ")
+			if n < b.min || (b.max >= 0 && n > b.max) {
+				// outside the documented range: further argument pools, tried until one is classified
+				seen := map[string]bool{strings.Join(b.args(n, 0), " "): true}
+				for v := 1; v < len(c04Pools); v++ {
+					t := strings.Join(b.args(n, v), " ")
+					if n == 0 || seen[t] {
+						t = "-" // placeholder keeps the variant numbering
+					}
+					seen[t] = true
+					line += " | " + t
+				}
+			}
+			lines = append(lines, line)
 			refs = append(refs, cellRef{i, n})
 		}
 	}
@@ -406,9 +564,17 @@ func c04Builtins(c *lib.Ctx) {
 	form0 := func(b c04Builtin, n int) string { return b.form(n) }
 	for k, r := range refs {
 		b := bs[r.b]
-		out := res[k]
+		out, variant := res[k], 0
 		if out == "" {
 			out = "not-run"
+		}
+		if o, v, ok := strings.Cut(out, " "); ok {
+			out = o
+			variant, _ = strconv.Atoi(v)
+		}
+		res[k] = out
+		if variant > 0 {
+			c.Ev.Count("builtin_cells_classified_by_another_argument_pool", 1)
 		}
 		inRange := r.argc >= b.min && (b.nodup < 0 || r.argc <= b.nodup)
 		below := r.argc < b.min
@@ -433,7 +599,7 @@ func c04Builtins(c *lib.Ctx) {
 			notJudged = append(notJudged, form0(b, r.argc)+" "+out)
 		}
 		isArity := out == "arity-few" || out == "arity-many"
-		form := b.form(r.argc)
+		form := b.formOf(b.args(r.argc, variant))
 		if k%(len(refs)/4+1) == 7 {
 			c.Ev.Sample(map[string]string{"form": form, "documented": "(" + strings.Join(b.doc, " ") + ")", "range": where, "outcome": out})
 		}
@@ -665,6 +831,7 @@ func c04ReplayBuiltin(c *lib.Ctx, rec map[string]any) {
 	pkg, _ := rec["pkg"].(string)
 	bs := c04Enumerate()
 	c04FillRanges(c, bs)
+	c04DefineProbes()
 	for _, b := range bs {
 		if b.name != name || b.pkg != pkg {
 			continue
@@ -677,7 +844,14 @@ func c04ReplayBuiltin(c *lib.Ctx, rec map[string]any) {
 		v := c04Verdict{}
 		fmt.Printf("replay %s:%s documented (%s) => min %d max %d (without duplicate keys %d; -1 = unbounded)\n", pkg, name, strings.Join(b.doc, " "), b.min, b.max, b.nodup)
 		for _, n := range b.argcs() {
-			out := c04CellOutcome(c04Call(b.fi, b.args(n)))
+			out, toks := c04CellOutcome(c04Call(b.fi, b.args(n, 0))), b.args(n, 0)
+			if n > 0 && (n < b.min || (b.max >= 0 && n > b.max)) {
+				for v := 1; v < len(c04Pools) && !c04Classified(out); v++ {
+					if r := c04CellOutcome(c04Call(b.fi, b.args(n, v))); c04Classified(r) {
+						out, toks = r, b.args(n, v)
+					}
+				}
+			}
 			inRange := n >= b.min && (b.nodup < 0 || n <= b.nodup)
 			outside := n < b.min || (b.max >= 0 && n > b.max)
 			mark := ""
@@ -689,7 +863,7 @@ func c04ReplayBuiltin(c *lib.Ctx, rec map[string]any) {
 				v.accepts = append(v.accepts, n)
 				mark = "   <-- accepted although not documented"
 			}
-			fmt.Printf("  %-60s %s%s\n", b.form(n), out, mark)
+			fmt.Printf("  %-60s %s%s\n", b.formOf(toks), out, mark)
 		}
 		if len(v.rejects)+len(v.accepts) > 0 {
 			c.Report("replay", false, map[string]any{"input": form})
